@@ -105,6 +105,9 @@ func Merge(rs []*Result) *Result {
 		}
 		m.Scenario, m.Mode, m.Bound = r.Scenario, r.Mode, r.Bound
 		m.Executions += r.Executions
+		if m.SampleTrace == "" {
+			m.SampleTrace = r.SampleTrace
+		}
 		m.Reexecutions += r.Reexecutions
 		m.Pruned += r.Pruned
 		m.TotalSteps += r.TotalSteps
